@@ -407,6 +407,56 @@ func spec_importsOK(p *pkgInfo) bool {
 //@   requires p != nil && p.Package != nil
 //@   ensures result == p.Package.Types
 
+//@ func pkgInfo.FileSet
+//@   props C13
+//@   pure
+//@   requires p != nil && p.u != nil
+//@   ensures result == p.u.fset
+
+//@ func pkgInfo.ObjectOf
+//@   props C13
+//@   pure
+//@   requires p != nil && p.Package != nil && p.Package.TypesInfo != nil
+//@   ensures result == p.Package.TypesInfo.ObjectOf(id)
+
+//@ func pkgInfo.Position
+//@   props C13 C12
+//@   pure
+//@   requires p != nil && p.Package != nil && p.Package.Fset != nil
+//@   ensures result == p.Package.Fset.Position(pos)
+
+//@ func pkgInfo.File
+//@   props C13 C14
+//@   pure
+//@   requires p != nil && p.Package != nil
+//@   requires forall i int :: 0 <= i && i < len(p.Package.Syntax) ==> p.Package.Syntax[i] != nil
+//@   ensures result != nil ==> elem(result, p.Package.Syntax) && result.Pos() <= pos && pos <= result.End()
+//@   ensures result == nil ==> forall i int :: 0 <= i && i < len(p.Package.Syntax) ==> !(p.Package.Syntax[i].Pos() <= pos && pos <= p.Package.Syntax[i].End())
+//@   note LocateInPackage-style look-up inside one package: the FIRST file whose extent contains pos; nil exactly when no file of the package contains it
+
+//@ func pkgInfo.Decl
+//@   props C13 C14
+//@   pure
+//@   requires p != nil && p.Package != nil
+//@   requires forall i int :: 0 <= i && i < len(p.Package.Syntax) ==> p.Package.Syntax[i] != nil
+//@   assume forall f *ast.File, i int :: f != nil && 0 <= i && i < len(f.Decls) ==> f.Decls[i] != nil
+//@   ensures result != nil ==> result.Pos() <= pos && pos <= result.End()
+//@   note a declaration is answered only if its extent contains pos (go/parser: the declarations of a file are non-nil - assumed)
+
+//@ func pkgInfo.Eval
+//@   props C14
+//@   requires p != nil && p.Package != nil && expr != nil
+//@   noglobalstate
+//@   assigns nothing
+//@   note evaluation consults go/types at the expression's OWN position every time: no state of the package (or of the process) is read or written, so the answer for one expression can never be the cached answer of another with the same text in a different scope (C14: the answer is the same on every call and independent of what was asked before)
+
+//@ func MustParseRef
+//@   props C15
+//@   assigns nothing
+//@   panics Spec_dot(ref) <= 0
+//@   ensures Spec_dot(ref) > 0 && spec_isRef(result) && spec_refPath(result) == ref[:Spec_dot(ref)] && spec_refName(result) == ref[Spec_dot(ref)+1:]
+//@   note same split point as ParseRef; panics instead of returning an error
+
 //@ func pkgInfo.Files
 //@   props C13
 //@   pure
@@ -964,6 +1014,7 @@ const (
 	spec_GenType  = 1
 	spec_GenAlias = 2
 	spec_Deferred = 3
+	spec_Rendered = 4 // SnippetWriter.Render: a snippet handed to a file's writer (Gen: the writer, Obj: the snippet)
 )
 
 // spec_callMark(): len(spec_fx()) at the moment user code was most recently invoked (ghost): relates the two logs in time.
